@@ -24,6 +24,13 @@ func init() {
 
 var c10Progs = []string{
 	`a*2+b`,
+	// constant LAZY lists (folded, not yet evaluated) as receivers of the operations that work on a copy
+	`let l=[1,2,3].map(x->x*2); [l.set(a%3,b), l]`,
+	`[3,1,2].map(x->x*2).order(x->x*(a%2*2-1)).append(b)`,
+	`let l=[1,2,3].map(x->x+1); [l.reverse()[a%3]+b, l[0]]`,
+	`let l=[1,2,3,4].map(x->x*2); [[2,4,b] ~ l, [2,2] ~ l, l.size()]`,
+	`let l=numbers(4).map(x->x*3); [l.orderLess((p,q)->(p<q)=(a%2=0))[0]+b, l.orderRev(x->x)[a%4], l[a%4]]`,
+	`let l=numbers(3).map(x->x+1); [l.set(0,a).set(1,b), l.set(2,a)]`,
 	`let l=numbers(5).map(x->x*2); l[a%5]+l.size()+b`,
 	`let l=numbers(5).map(x->x*2); l.append(a).map(x->x+b)`,
 	`let c=[1,2].append(3); [c.append(a), c.append(b), c]`,
